@@ -121,6 +121,18 @@ impl<E> Probe<E> {
 }
 
 #[cfg(feature = "verif-hooks")]
+impl<E> Probe<E> {
+    /// Copies the bytes of all queued chunks, front first. Same locking rule as `snapshot`.
+    pub fn queued_bytes(&self) -> Vec<u8> {
+        let l = self.shared.lock().expect("not poisoned");
+        match &l.state {
+            SharedState::Ok { ready, .. } => ready.iter().flatten().copied().collect(),
+            _ => Vec::new(),
+        }
+    }
+}
+
+#[cfg(feature = "verif-hooks")]
 impl<D, E> Reader<D, E> {
     /// Returns a verification probe onto this reader's shared state.
     pub fn verif_probe(&self) -> Probe<E> {
